@@ -180,10 +180,10 @@ class Executor:
         if a.kwarg:
             frame.env[a.kwarg.arg] = st.alloc(DictObj.empty(st, TStr, TVal))
         is_gen = any(isinstance(x, (ast.Yield, ast.YieldFrom)) for x in ast.walk(fi.node))
+        old_heap = st.snapshot()
         if is_gen:
             # a generator under contract: its result is the list of the yielded values (hidden local `__yield__`)
             frame.env["__yield__"] = self.coerce(self.models.make_list(self, []), ct.returns) if ct.returns is not None else self.models.make_list(self, [])
-        old_heap = st.snapshot()
         c0 = C.Ctx(st, old_heap, st.heap, args)
         for label, f in ct.requires(c0):
             st.assume(f)
@@ -204,6 +204,8 @@ class Executor:
         if exc is None and ct.returns is not None:
             result = self.coerce(result, ct.returns)
         c = C.Ctx(st, old_heap, st.heap, args, result)
+        # locals of the verified function at exit (for clauses that must name an intermediate result)
+        c.locals = {n: C.View(st.heap, v, st)._wrap(v) for n, v in frame.env.items() if v is not UNBOUND and v is not None}
         end = fi.node.end_lineno
         if exc is None and getattr(ct, "ghost_final", None) is not None:
             # ghost epilogue: witnesses for ghost variables, built from the final state (incl. locals)
